@@ -66,9 +66,41 @@ def gen_case(rng, max_ops, max_live, malformed=False):
     return toks
 
 
+def gen_dense_case(rng, max_live):
+    """A dense DAG first (many nodes with several parents and shared ancestors, edges inserted in random order so that the parent
+    and child lists have unrelated orders), then edges from late nodes to early nodes: every such edge either closes a cycle or
+    forces a reorder whose backward search walks diamonds -- a parent already visited through another path followed by one that
+    was not -- and whose forward search does the same on the child lists; then the whole order is probed by further edges."""
+    toks = []
+    n = rng.randint(5, 8) if rng.random() < 0.6 else rng.randint(5, max(6, min(max_live, 14)))
+    toks += ['A'] * n
+    data = 1
+    fw = [(i, j) for i in range(n) for j in range(i + 1, n)]
+    rng.shuffle(fw)
+    dens = rng.uniform(0.25, 0.7)
+    # edges i -> j with i > j go WITH the creation order of ranks? ranks follow creation order, an edge s -> d needs rank s < rank d:
+    # forward edges (s < d) need no reorder; choose the direction per case so that both the parent-side and the child-side searches get diamonds
+    flip = rng.random() < 0.5
+    for (i, j) in fw:
+        if rng.random() < dens:
+            s, d = (j, i) if flip else (i, j)
+            toks += ['E', str(s), str(d), str(data)]; data += 1
+    for _ in range(rng.randint(4, 12)):
+        a, b = rng.sample(range(n), 2)
+        if rng.random() < 0.8 and ((a < b) != flip):
+            a, b = b, a                      # from a node late in the current order to an early one: reorder or cycle
+        toks += ['E', str(a), str(b), str(data)]; data += 1
+        if rng.random() < 0.3:
+            toks += ['X', str(rng.randrange(n)), str(rng.randrange(n))]
+    return toks
+
+
 def corpus_cases():
     """Hand-written / minimized cases that run first on every check."""
     return [
+        # backward search of a reorder: a parent already visited through another path, followed in the parent list by one that was not
+        "A A A A A A E 5 4 1 E 5 2 3 E 3 2 4 E 2 1 5 E 4 1 6 E 1 0 7 E 2 3 8".split(),
+        "A A A A A E 1 3 1 E 2 3 2 E 3 4 3 E 1 4 4 E 4 0 5 E 3 2 6".split(),
         # O1 witness: re-adding an existing edge must keep first-insertion order
         "A A A E 0 1 10 E 0 2 20 E 0 1 30".split(),
         # cycle through a path, then legal edge forcing a reorder
